@@ -155,6 +155,10 @@ func (pf *RangeProofAlice) Verify(ec elliptic.Curve, pk *paillier.PublicKey, NTi
 	if pf.S1.Cmp(q3) == 1 {
 		return false
 	}
+	// c^-e below needs c to be invertible modulo N^2
+	if new(big.Int).GCD(nil, nil, c, pk.NSquare()).Cmp(one) != 0 {
+		return false
+	}
 
 	// 1-2. e'
 	var e *big.Int
